@@ -34,9 +34,11 @@ RejectStatus == IF L = {} THEN 404 ELSE 503
 Init == /\ strategy \in Strategies /\ fallback \in Fallbacks /\ refresh \in BOOLEAN
         /\ H \in SUBSET EP /\ L \in SUBSET EP
         /\ phase = "cfg" /\ served = "none"
-        /\ \E u \in BOOLEAN : \E rt \in {"proxy", "provider"} :
+        \* D: endpoints that listed the model at boot and dropped it in a later listing of the same size;
+        \* ch: the client sends its body chunked
+        /\ \E u \in BOOLEAN : \E rt \in {"proxy", "provider"} : \E D \in SUBSET (EP \ L) : \E ch \in BOOLEAN :
               scn = [strategy |-> strategy, fallback |-> fallback, refresh |-> refresh,
-                     H |-> H, L |-> L, unifier |-> u, route |-> rt]
+                     H |-> H, L |-> L, unifier |-> u, route |-> rt, D |-> D, chunked |-> ch]
 
 Send == phase = "cfg" /\ phase' = "sent" /\ UNCHANGED <<strategy, fallback, refresh, H, L, served, scn>>
 \* the request reaches backend e: only a target of the decision may be contacted (C09 safety)
@@ -67,11 +69,11 @@ Spec == Init /\ [][Next]_vars
 -----------------------------------------------------------------------------
 (* Property C09 *)
 \* never sends a model where it is not served (unless the configuration asks for the healthy set)
-ServedWhereListed == served # "none" =>
+ServedWhereListed == (served # "none" /\ phase # "stale") =>
                         /\ served \in H
                         /\ (~Lenient => served \in L)
                         /\ (H \cap L # {} => served \in L)
-TypeOK == phase \in {"cfg", "sent", "served", "answered"} /\ served \in EP \cup {"none"}
+TypeOK == phase \in {"cfg", "sent", "served", "answered", "stale"} /\ served \in EP \cup {"none"}
 GenNext == FALSE /\ UNCHANGED vars
 Export == phase = "cfg" => PrintT(<<"SCN", ToJson(scn)>>)
 =============================================================================
